@@ -9,7 +9,7 @@ VARIABLES l, viol, cover, produced, received, ended
 tvars == <<l, viol, cover, produced, received, ended>>
 Line == TraceLog[l]
 Closing(e) == "closing" \in DOMAIN e /\ e.closing
-Cls(e) == IF Closing(e) THEN (IF e.apart THEN "closing-apart" ELSE "closing-coalesced") ELSE IF e.carr = e.decl THEN "eq" ELSE IF e.carr < e.decl THEN "short" ELSE "long"
+Cls(e) == IF Closing(e) THEN (IF "slowhost" \in DOMAIN e /\ e.slowhost THEN "closing-busyhost" ELSE IF e.apart THEN "closing-apart" ELSE "closing-coalesced") ELSE IF e.carr = e.decl THEN "eq" ELSE IF e.carr < e.decl THEN "short" ELSE "long"
 
 TInit == l = 1 /\ viol = {} /\ cover = {} /\ produced = 0 /\ received = 0 /\ ended = FALSE
 TReset == Line.ev = "reset" /\ produced' = 0 /\ received' = 0 /\ ended' = FALSE /\ UNCHANGED <<viol, cover>>
